@@ -141,7 +141,9 @@ def generate(seed: int, tier: str) -> Dict[str, Any]:
     edits = _mutate(rng.stream("edits"), base)
     fate = r.weighted([("intact", 4), ("never_written", 1), ("removed", 2), ("truncated", 1), ("garbled", 1), ("killed", 2)])
     return {"base": base, "edits": edits, "cur_version": "8", "fate": fate, "cut": r.randint(0, 200), "kill_at": r.randint(0, 30),
-            "full_sibling": r.chance(0.4), "damage_before_write": r.chance(0.5), "sibling_fate": r.choice([None, None, "truncated", "garbled"]), "in_place": r.chance(0.4)}
+            "full_sibling": r.chance(0.4), "damage_before_write": r.chance(0.5), "sibling_fate": r.choice([None, None, "truncated", "garbled"]), "in_place": r.chance(0.4),
+            # every codec the writer accepts; zstandard is not installed here, where the writer documents a fall-back to "none"
+            "compression": r.choice(["none", "none", "none", "zstd"])}
 
 
 def execute(p: Dict[str, Any]) -> Dict[str, Any]:
@@ -196,7 +198,7 @@ def execute(p: Dict[str, Any]) -> Dict[str, Any]:
                     # baseline write is the very object that is then edited and handed to the delta-mode write
                     live = copy.deepcopy(base) if p.get("in_place") else base
                     try:
-                        base_path, _ = esnap.write_snapshot_auto(d, etag_from=None, etag_to="7", payload=live, delta_mode=False)
+                        base_path, _ = esnap.write_snapshot_auto(d, etag_from=None, etag_to="7", payload=live, delta_mode=False, compression=p.get("compression", "none"))
                     except SimCrash:
                         stats["kills_fired"] = 1
                     if p.get("in_place"):
@@ -218,7 +220,7 @@ def execute(p: Dict[str, Any]) -> Dict[str, Any]:
                 damaged_before = True
                 stats["baseline_damaged_before_write"] = 1
             try:
-                cur_path, wrote_delta = esnap.write_snapshot_auto(d, etag_from="7", etag_to="8", payload=cur, delta_mode=True)
+                cur_path, wrote_delta = esnap.write_snapshot_auto(d, etag_from="7", etag_to="8", payload=cur, delta_mode=True, compression=p.get("compression", "none"))
             except Exception as e:  # noqa: BLE001
                 bad("writer:raised:%s%s" % (type(e).__name__, ":damaged-baseline" if damaged_before else ""), repr(e)[:200])
                 cur_path, wrote_delta = None, False
@@ -238,7 +240,7 @@ def execute(p: Dict[str, Any]) -> Dict[str, Any]:
                 if wrote_delta and not baseline_ok_at_write:
                     bad("writer:delta-without-baseline", "a delta was written although no baseline file exists")
                 if p.get("full_sibling") and wrote_delta:
-                    sp, _ = esnap.write_snapshot_auto(d, etag_from=None, etag_to="8", payload=cur, delta_mode=False)
+                    sp, _ = esnap.write_snapshot_auto(d, etag_from=None, etag_to="8", payload=cur, delta_mode=False, compression=p.get("compression", "none"))
                     if p.get("sibling_fate") and fate in ("removed", "truncated", "garbled"):
                         # the fall-back file is damaged too: the readers then have nothing trustworthy and must say so
                         sdata = open(sp, "rb").read()
